@@ -145,6 +145,8 @@ var stdInline = map[string]bool{"strings": true, "unicode": true, "unicode/utf8"
 	"maps": true, "cmp": true, "path": true, "sort": false, "bytes": true, "errors": false, "internal/stringslite": true,
 	"internal/bytealg": false}
 
+var stringsInline = map[string]bool{"HasPrefix": true, "HasSuffix": true, "Compare": true, "EqualFold": false}
+
 func (e *Engine) bind(fr *Frame, res ssa.Value, results []Val) {
 	if res == nil {
 		return
@@ -181,6 +183,39 @@ func (e *Engine) callFunction(st *State, fr *Frame, res ssa.Value, callee *ssa.F
 				fr.env[res] = Val{Forall([]*Term{bv}, Implies(Ne(bv, IntC(0)), body))}
 			}
 			return false
+		case name == "floatfinite" && strings.HasSuffix(e.W.Fset.Position(callee.Pos()).Filename, "zz_verif_gen.go"):
+			if res != nil {
+				fr.env[res] = Val{App("float_finite", SBool, args[0][0])}
+			}
+			return false
+		case name == "iterpos" && strings.HasSuffix(e.W.Fset.Position(callee.Pos()).Filename, "zz_verif_gen.go"):
+			// byte position of the live range-over-string iterator on this string
+			var found *Term
+			for _, it := range st.iters {
+				if it.kind == "strsym" && it.sref == st.norm(args[0][0]) {
+					found = it.posT
+				}
+			}
+			if found == nil {
+				engineErr("iterpos: no live iterator over the given string")
+			}
+			if res != nil {
+				fr.env[res] = Val{found}
+			}
+			return false
+		case name == "allstrings" && strings.HasSuffix(e.W.Fset.Position(callee.Pos()).Filename, "zz_verif_gen.go"):
+			fv := st.concretize(args[0][0])
+			id, _ := fv.ConstInt()
+			cl := e.closures[id]
+			if cl == nil {
+				engineErr("allstrings: body is not a closure literal")
+			}
+			bv := BVar("s", SInt)
+			body := e.evalSpecFn(st, cl.fn, append([]Val{{bv}}, cl.bindings...), []*Term{Le(IntC(0), bv)})
+			if res != nil {
+				fr.env[res] = Val{Forall([]*Term{bv}, Implies(Le(IntC(0), bv), body))}
+			}
+			return false
 		case (name == "pow2" || name == "bigval") && strings.HasSuffix(e.W.Fset.Position(callee.Pos()).Filename, "zz_verif_gen.go"):
 			var r *Term
 			if name == "pow2" {
@@ -205,7 +240,8 @@ func (e *Engine) callFunction(st *State, fr *Frame, res ssa.Value, callee *ssa.F
 			return false
 		}
 	}
-	if (callee.Name() == "String" || callee.Name() == "Error") && callee.Signature.Params().Len() == 0 && callee.Signature.Results().Len() == 1 && callee.Signature.Recv() != nil {
+	_, hasModel := modelTable[callee.String()]
+	if !hasModel && (callee.Name() == "String" || callee.Name() == "Error") && callee.Signature.Params().Len() == 0 && callee.Signature.Results().Len() == 1 && callee.Signature.Recv() != nil {
 		// textual renderings are never executed: a deterministic uninterpreted string
 		e.bind(fr, res, e.ufResults(st, "text$"+shortFn(callee), callee.Signature, args[:1]))
 		return false
@@ -233,6 +269,10 @@ func (e *Engine) callFunction(st *State, fr *Frame, res ssa.Value, callee *ssa.F
 	}
 	inMod := callee.Pkg != nil && strings.HasPrefix(callee.Pkg.Pkg.Path(), e.W.ModPath)
 	inStd := callee.Pkg != nil && stdInline[callee.Pkg.Pkg.Path()]
+	if inStd && (callee.Pkg.Pkg.Path() == "strings" || callee.Pkg.Pkg.Path() == "bytes") && !stringsInline[callee.Name()] {
+		// functions that loop over their (symbolic) argument are abstracted as pure functions
+		inStd = false
+	}
 	if callee.Pkg == nil && callee.Origin() != nil && callee.Origin().Pkg != nil {
 		p := callee.Origin().Pkg.Pkg.Path()
 		inMod = strings.HasPrefix(p, e.W.ModPath)
